@@ -133,3 +133,179 @@ Theorem c14_code_remove_tag_refines_model : forall buf p n rho F,
   end.
 Proof. exact code_remove_tag_refines_model. Qed.
 Print Assumptions c14_code_remove_tag_refines_model.
+
+(* ---- the release routines AS TRANSLATED from the sources on this run (Gen/Sites.v), and creation ; release pairs.  releases, release_table, wpa_owned, allocs, frees
+   and the lifecycle statements' vocabulary are defined in Proofs/CodeRelease.v and Proofs/CodeReleasePairs.v ---- *)
+From LW Require Import Base.Sweep Gen.Tables Spec.FrameSpec Proofs.FrameProofs Model.Frame Model.Eapol Proofs.CodeFrame Proofs.CodeEapol Proofs.CodeRelease Proofs.CodeReleasePairs Proofs.CodeSmall.
+
+(* each of the 18 release routines, run on any object in any memory with any trace so far, makes exactly the free calls of its owning member(s) - the pointer value the object holds - and nothing else (the EAPOL one releases the key data exactly when a length is recorded) *)
+Theorem c14_code_release_all : Forall (fun e => releases (snd (fst e)) (snd e)) release_table.
+Proof. exact code_release_all. Qed.
+Print Assumptions c14_code_release_all.
+
+(* so every event of a release routine is a free of a listed member *)
+Theorem c14_code_release_table_only_frees : Forall (fun e => forall m rho f, (3 <= f)%nat ->
+            exists tr, observe (exec f m rho [] (snd (fst e))) = Some (None, tr) /\
+                       NoDup (snd e rho) /\ tr = map (free_ev rho) (snd e rho) /\
+                       Forall (fun ev => fst ev = "free") tr) release_table.
+Proof. exact release_table_only_frees. Qed.
+Print Assumptions c14_code_release_table_only_frees.
+
+(* create_tag ; free_tag: one malloc, released once *)
+Theorem c14_code_lifecycle_tag : forall m rho num tl q,
+  - 2 ^ 31 <= num < 2 ^ 31 -> 0 <= tl < 2 ^ 63 -> rho "ret:malloc" = q -> 0 < q < 2 ^ 63 ->
+  let rho0 := upd (upd rho "tag_number" num) "tag_length" tl in
+  exists rho' tr,
+    exec 40 m rho0 [] body_libwifi_create_tag = Returned (Some (2 + tl)) rho' tr /\
+    rho' "tagged_parameter->body" = q /\
+    allocs tr = [("malloc", [tl])] /\ frees tr = [] /\
+    exec 3 m rho' tr body_libwifi_free_tag = Fell rho' (tr ++ [("free", [q])]).
+Proof. exact lifecycle_tag. Qed.
+Print Assumptions c14_code_lifecycle_tag.
+
+(* add_tag: the list's block after a successful add is realloc's answer, which the frame's release routine frees *)
+Theorem c14_code_add_tag_owner : forall m rho len tl p q,
+  0 <= len < 2 ^ 62 -> 0 <= tl < 256 -> 0 < p -> p + len + 257 < 2 ^ 63 ->
+  (if (len =? 0)%Z then rho "ret:malloc" else rho "ret:realloc") = q ->
+  0 < q -> q + len + 257 < 2 ^ 63 ->
+  let rho0 := upd (upd (upd rho "tags->length" len) "tag->header.tag_len" tl) "tags->parameters" p in
+  exists rho' tr,
+    exec 40 m rho0 [] body_libwifi_add_tag = Returned (Some 0) rho' tr /\
+    allocs tr = [if (len =? 0)%Z then ("malloc", [2 + tl]) else ("realloc", [p; len + 2 + tl])] /\ frees tr = [] /\
+    rho' "tags->parameters" = q /\ rho' "tags->length" = len + 2 + tl.
+Proof. exact code_add_tag_owner. Qed.
+Print Assumptions c14_code_add_tag_owner.
+
+(* the deauth / disassoc parsers ; their release routines *)
+Theorem c14_code_lifecycle_reason : forall body fbody obj subtype,
+  CodeMgmt.reason_parser_ok body obj subtype ->
+  releases fbody (fun _ => [(obj ++ "->tags.parameters")%string]) ->
+  0 <= subtype < 2 ^ 31 ->
+  forall rho o len hl b q m,
+    0 <= o < 2 ^ 31 -> 0 < b -> 0 <= hl <= len -> b + len < 2 ^ 62 -> 0 <= q < 2 ^ 62 -> rho "ret:malloc" = q ->
+    hl + 2 <= len ->
+    let n := wrap s32 (len - (if o =? 0 then 24 else 28) - 2) in
+    n <= 0 \/ q <> 0 ->
+    exists rho' tr,
+      exec 100 m (CodeMgmtDefs.frame_env rho 0 subtype o len hl b) [] body = Returned (Some 0) rho' tr /\
+      rho' (obj ++ "->tags.parameters")%string = (if n <=? 0 then 0 else q) /\
+      allocs tr = (if n <=? 0 then [] else [("malloc", [n])]) /\ frees tr = [] /\
+      exec 3 m rho' tr fbody = Fell rho' (tr ++ [("free", [if n <=? 0 then 0 else q])]).
+Proof. exact lifecycle_reason. Qed.
+Print Assumptions c14_code_lifecycle_reason.
+
+(* create_action ; free_action *)
+Theorem c14_code_lifecycle_action : forall m rho cat,
+  0 <= cat < 256 ->
+  exists rho' tr,
+    exec 40 m (upd rho "category" cat) [] body_libwifi_create_action = Returned (Some 0) rho' tr /\
+    allocs tr = [] /\ frees tr = [] /\
+    exec 3 m rho' tr body_libwifi_free_action = Fell rho' (tr ++ [("free", [0])]).
+Proof. exact lifecycle_action. Qed.
+Print Assumptions c14_code_lifecycle_action.
+
+(* create_auth ; free_auth *)
+Theorem c14_code_lifecycle_auth : forall m rho alg seq st,
+  0 <= alg < 65536 -> 0 <= seq < 65536 -> 0 <= st < 65536 ->
+  exists rho' tr,
+    exec 40 m (upd (upd (upd rho "algorithm_number" alg) "transaction_sequence" seq) "status_code" st) [] body_libwifi_create_auth
+      = Returned (Some 0) rho' tr /\
+    allocs tr = [] /\ frees tr = [] /\
+    exec 3 m rho' tr body_libwifi_free_auth = Fell rho' (tr ++ [("free", [0])]).
+Proof. exact lifecycle_auth. Qed.
+Print Assumptions c14_code_lifecycle_auth.
+
+(* create_deauth ; free_deauth *)
+Theorem c14_code_lifecycle_deauth : forall m rho reason,
+  0 <= reason < 65536 ->
+  exists rho' tr,
+    exec 40 m (upd rho "reason_code" reason) [] body_libwifi_create_deauth = Returned (Some 0) rho' tr /\
+    allocs tr = [] /\ frees tr = [] /\
+    exec 3 m rho' tr body_libwifi_free_deauth = Fell rho' (tr ++ [("free", [0])]).
+Proof. exact lifecycle_deauth. Qed.
+Print Assumptions c14_code_lifecycle_deauth.
+
+(* create_disassoc ; free_disassoc *)
+Theorem c14_code_lifecycle_disassoc : forall m rho reason,
+  0 <= reason < 65536 ->
+  exists rho' tr,
+    exec 40 m (upd rho "reason_code" reason) [] body_libwifi_create_disassoc = Returned (Some 0) rho' tr /\
+    allocs tr = [] /\ frees tr = [] /\
+    exec 3 m rho' tr body_libwifi_free_disassoc = Fell rho' (tr ++ [("free", [0])]).
+Proof. exact lifecycle_disassoc. Qed.
+Print Assumptions c14_code_lifecycle_disassoc.
+
+(* the classifier: which blocks the frame object owns on every exit *)
+Theorem c14_code_get_wifi_frame_owner : forall buf a rho,
+  wfbytes buf -> 0 < a -> a + zlen buf < 2 ^ 62 -> 0 <= rho "ret:malloc" < 2 ^ 62 ->
+  let q := rho "ret:malloc" in
+  let b0 := znth buf 0 in
+  let b1 := znth buf 1 in
+  2 <= zlen buf ->
+  forall hl, s_hdr_len (s_type b0) (s_subtype b0) (s_ordered b1) = Some hl -> hl <= zlen buf ->
+    let tr := frame_memset rho :: (CodeFrame.hdr_copies rho a b0 b1 ++ tail_trace (rho "&fi->frame_control") a hl (zlen buf) q)%list in
+    exists rho1,
+      frame_run buf a rho = Returned (Some (tail_ret hl (zlen buf) q)) rho1 tr /\
+      rho1 "fi->len" = zlen buf /\ rho1 "fi->header_len" = hl /\ rho1 "fi->flags" = s_flags b0 b1 /\
+      rho1 "fi->body" = (if zlen buf =? hl then 0 else q) /\ rho1 "fi->radiotap_info" = 0.
+Proof. exact code_get_wifi_frame_owner. Qed.
+Print Assumptions c14_code_get_wifi_frame_owner.
+
+(* get_wifi_frame ; free_wifi_frame, for every input: everything allocated is released exactly once, on the refusing exits inside the classifier itself *)
+Theorem c14_code_lifecycle_wifi_frame : forall buf a rho,
+  wfbytes buf -> 0 < a -> a + zlen buf < 2 ^ 62 -> 0 <= rho "ret:malloc" < 2 ^ 62 ->
+  let q := rho "ret:malloc" in
+  2 <= zlen buf ->
+  forall hl, s_hdr_len (s_type (znth buf 0)) (s_subtype (znth buf 0)) (s_ordered (znth buf 1)) = Some hl -> hl <= zlen buf ->
+    exists rho1 tr,
+      frame_run buf a rho = Returned (Some (tail_ret hl (zlen buf) q)) rho1 tr /\
+      rho1 "fi->body" = (if zlen buf =? hl then 0 else q) /\ rho1 "fi->radiotap_info" = 0 /\
+      allocs tr = (if zlen buf =? hl then [] else [("malloc", [zlen buf - hl])]) /\ frees tr = [] /\
+      exec 3 (mem_at a buf) rho1 tr body_libwifi_free_wifi_frame =
+        Fell rho1 (tr ++ [("free", [0]); ("free", [if zlen buf =? hl then 0 else q])]).
+Proof. exact lifecycle_wifi_frame. Qed.
+Print Assumptions c14_code_lifecycle_wifi_frame.
+
+(* get_wpa_data: the key data block *)
+Theorem c14_code_get_wpa_data_owner : forall b a hl ty rho,
+  wfbytes b -> 0 < a -> a + zlen b < 2 ^ 62 -> hl = 24 \/ hl = 26 ->
+  0 <= wrap s32 (rho "ret:libwifi_check_wpa_handshake") -> 107 <= zlen b ->
+  let mp := wrap u64 (rho "ret:malloc") in
+  let declared := 256 * znth b 105 + znth b 106 in
+  let kdl := Z.min (Z.min declared 1024) (zlen b - 107) in
+  exists v rho' tr,
+    exec 60 (mem_at a b) (frame_env rho ty (hl + zlen b) hl a) [] body_libwifi_get_wpa_data = Returned v rho' tr /\
+    rho' "data->key_info.key_data_length" = kdl /\
+    rho' "data->key_info.key_data" = (if kdl =? 0 then 0 else mp).
+Proof. exact code_get_wpa_data_owner. Qed.
+Print Assumptions c14_code_get_wpa_data_owner.
+
+(* get_wpa_data ; free_wpa_data *)
+Theorem c14_code_lifecycle_wpa_data : forall b a hl ty rho,
+  wfbytes b -> 0 < a -> a + zlen b < 2 ^ 62 -> hl = 24 \/ hl = 26 ->
+  0 <= wrap s32 (rho "ret:libwifi_check_wpa_handshake") -> 107 <= zlen b ->
+  let mp := wrap u64 (rho "ret:malloc") in
+  let declared := 256 * znth b 105 + znth b 106 in
+  let kdl := Z.min (Z.min declared 1024) (zlen b - 107) in
+  exists v rho' tr,
+    exec 60 (mem_at a b) (frame_env rho ty (hl + zlen b) hl a) [] body_libwifi_get_wpa_data = Returned (Some v) rho' tr /\
+    v = (if negb (kdl =? 0) && (mp =? 0) then -12 else 0) /\
+    allocs tr = (if kdl =? 0 then [] else [("malloc", [kdl])]) /\ frees tr = [] /\
+    exec 3 (mem_at a b) rho' tr body_libwifi_free_wpa_data = Fell rho' (tr ++ (if kdl =? 0 then [] else [("free", [mp])])).
+Proof. exact lifecycle_wpa_data. Qed.
+Print Assumptions c14_code_lifecycle_wpa_data.
+
+(* parse_data ; free_data *)
+Theorem c14_code_lifecycle_data : forall rho ty fl len hl b q m,
+  0 <= ty < 2 ^ 31 -> 0 <= fl < 65536 -> 0 <= hl <= len -> len < 2 ^ 64 -> 0 <= b < 2 ^ 64 ->
+  rho "ret:malloc" = q -> 0 <= q < 2 ^ 64 ->
+  let n := len - hl in
+  let taken := negb (negb (ty =? 2) || (n =? 0)) in       (* the routine reaches malloc *)
+  exists v rho' tr,
+    exec 40 m (data_env rho ty fl len hl b) [] body_libwifi_parse_data = Returned (Some v) rho' tr /\
+    v = (if negb (ty =? 2) then -22 else if taken && (q =? 0) then -12 else 0) /\
+    allocs tr = (if taken then [("malloc", [n])] else []) /\ frees tr = [] /\
+    exec 3 m rho' tr body_libwifi_free_data = Fell rho' (tr ++ [("free", [if taken then q else 0])]).
+Proof. exact lifecycle_data. Qed.
+Print Assumptions c14_code_lifecycle_data.
+
